@@ -107,133 +107,5 @@ def register(reg, prog):
 
 
 def bounded(tier, seed):
-    """Discovery vs. routing, natively on real Site objects (string composition of the listing is outside the string model):
-    every link of get_resources_as_linkheader(), requested at the path its href spells, must be routed to the very resource
-    that link describes, and every resource with a description is listed exactly once.  Bounded, never counted as proved."""
-    import asyncio, itertools, os
-    import aiocoap
-    from aiocoap import resource, Message, GET
-    from aiocoap.message import Direction
-    VERIF = os.path.dirname(os.path.dirname(os.path.abspath(__file__)))
-
-    class Leaf(resource.Resource):
-        def __init__(self, tag):
-            super().__init__()
-            self.tag = tag
-
-        def get_link_description(self):
-            return {'title': self.tag}
-
-        async def render_get(self, request):
-            return Message(payload=self.tag.encode())
-
-    comps = ['a', 'b', '']
-    # ('',) is left out at top level: its href is "/" which RFC 7252 6.4 decomposes to NO Uri-Path option (the C16 degenerate
-    # case), so no URI addresses such a registration at all
-    paths = [p for k in range(0, 3) for p in itertools.product(comps, repeat=k) if p != ('',)]
-    nestpoints = [('sub',), ('s', 't'), ('batch',)]
-    viol, n, samples, known = [], 0, [], {}
-
-    def route(site, href):
-        assert href.startswith('/'), href
-        req = Message(code=GET, uri_path=tuple(href[1:].split('/')) if href != '/' else ())
-        req.direction = Direction.INCOMING
-        # a path spelled "/x/" has the components ('x', ''): exactly what urllib-free splitting gives
-        try:
-            return asyncio.run(site.render(req)).payload.decode()
-        except Exception as e:
-            return 'ERR ' + type(e).__name__
-
-    combos = list(itertools.combinations(paths, 2))
-    if tier != 'thorough':
-        combos = combos[::3]
-    for top_paths in combos:
-        for np in nestpoints:
-            for inner_paths in ([(), ('x',)], [('',)], [('y', '')], [(), ('more', '')]):
-                n += 1
-                root, inner = resource.Site(), resource.Site()
-                expect = {}
-                for p in top_paths:
-                    if p[:len(np)] == np:
-                        continue
-                    tag = 'top:' + '/'.join(p) + '#%d' % len(expect)
-                    root.add_resource(p, Leaf(tag))
-                    expect[tag] = None
-                for p in inner_paths:
-                    tag = 'in:' + '/'.join(p) + '#%d' % len(expect)
-                    inner.add_resource(p, Leaf(tag))
-                    expect[tag] = None
-                root.add_resource(np, inner)
-                links = root.get_resources_as_linkheader().links
-                titles = [dict(l.attr_pairs).get('title') for l in links]
-                bad = None
-                if sorted(titles) != sorted(expect):
-                    bad = 'listing names %r, registered %r' % (sorted(titles), sorted(expect))
-                else:
-                    for l in links:
-                        t = dict(l.attr_pairs).get('title')
-                        if not l.href.startswith('/'):
-                            bad = 'link for %s has a href that is not an absolute path: %r' % (t, l.href)
-                            break
-                        got = route(root, l.href)
-                        if got != t:
-                            bad = 'link <%s> for %s is answered by %s' % (l.href, t, got)
-                            break
-                if bad and ('',) in inner_paths and 'NotFound' in bad and bad.startswith('link <%s/>' % ('/' + '/'.join(np))):
-                    # the deliberate special case of the router (a single empty remaining component addresses the nested site's
-                    # root) shadows a resource registered at ('',) inside a nested site: recorded finding, see known_findings.json
-                    known.setdefault('C17-nested-empty-component', bad + ' (nested site at %r with %r)' % (np, inner_paths))
-                    bad = None
-                if len(samples) < 3 and n % 50 == 0:
-                    samples.append({'registered': sorted(expect), 'listed': [l.href for l in links]})
-                if bad and len(viol) < 10:
-                    path = os.path.join(VERIF, 'replays', 'C17-listing-%d.py' % (len(viol) + 1))
-                    os.makedirs(os.path.dirname(path), exist_ok=True)
-                    with open(path, 'w') as f:
-                        f.write('#!/venv/bin/python\n"""C17 replay (bounded stand-in, discovery vs routing): %s\nsite: top-level %r, nested site at %r with %r"""\n'
-                                'import sys, os\nsys.path.insert(0, %r); sys.path.insert(0, os.environ.get("VERIF_REPO", "/repo"))\n'
-                                'from contracts.c17 import replay_listing\nsys.exit(replay_listing(%r, %r, %r))\n' % (bad, top_paths, np, inner_paths, VERIF, list(top_paths), np, inner_paths))
-                    viol.append({'what': bad + ' (top-level %r, nested site at %r with %r)' % (top_paths, np, inner_paths), 'replay': path})
-    return [{'name': 'C17/discovery-lists-routable-full-paths', 'tool': 'bounded enumeration (native Site objects)',
-             'bound': 'pairs of top-level paths over %r up to 2 components x 3 nesting points x 4 inner layouts' % comps,
-             'inputs_tried': n, 'samples': samples, 'violations': viol, 'known': [{'id': k, 'what': v} for k, v in known.items()], 'counted_as_proved': False}]
-
-
-def replay_listing(top_paths, np, inner_paths):
-    import asyncio
-    from aiocoap import resource, Message, GET
-    from aiocoap.message import Direction
-
-    class Leaf(resource.Resource):
-        def __init__(self, tag):
-            super().__init__()
-            self.tag = tag
-
-        def get_link_description(self):
-            return {'title': self.tag}
-
-        async def render_get(self, request):
-            return Message(payload=self.tag.encode())
-    root, inner = resource.Site(), resource.Site()
-    k = 0
-    for p in top_paths:
-        if tuple(p[:len(np)]) == tuple(np):
-            continue
-        root.add_resource(tuple(p), Leaf('top:' + '/'.join(p) + '#%d' % k)); k += 1
-    for p in inner_paths:
-        inner.add_resource(tuple(p), Leaf('in:' + '/'.join(p) + '#%d' % k)); k += 1
-    root.add_resource(tuple(np), inner)
-    bad = 0
-    for l in root.get_resources_as_linkheader().links:
-        t = dict(l.attr_pairs).get('title')
-        if not l.href.startswith('/'):
-            print('href not absolute:', repr(l.href), t); bad = 1; continue
-        req = Message(code=GET, uri_path=tuple(l.href[1:].split('/')) if l.href != '/' else ())
-        req.direction = Direction.INCOMING
-        try:
-            got = asyncio.run(root.render(req)).payload.decode()
-        except Exception as e:
-            got = 'ERR ' + type(e).__name__
-        print(l.href, '->', got, '(describes %s)' % t)
-        bad |= got != t
-    return 1 if bad else 0
+    from specs.c17_listing import bounded as b
+    return b(tier, seed)
